@@ -195,8 +195,8 @@ class C16(Profile):
 
     # ------------------------------------------------------------------------------------------
     def kind_of(self, op):
-        if op["op"] == "release":
-            return "release"
+        if op["op"] in ("release", "edit"):
+            return op["op"]
         f = op.get("fault")
         return "%s:%s%s" % (op["op"], op["via"], ("+" + f["kind"]) if f else "")
 
@@ -237,6 +237,13 @@ class C16(Profile):
             import gc
             del world.kept[:]
             gc.collect()
+            return None
+        if op["op"] == "edit":
+            # the caller processes a long-lived signal with a public operation that edits its record in place; the next save
+            # of that object must write what it holds then (c16w-2: formatted text kept on the object, keyed by array identity)
+            sig = world.sigs.get(op["obj"])
+            if sig is not None:
+                sig.running_average(3)
             return None
         path = self._path(world, op)
         if op["op"] == "save" and "obj" in op:
@@ -308,8 +315,8 @@ class C16(Profile):
         st = world.stats
         st["steps"] += 1
         kind = self.kind_of(op)
-        if op["op"] == "release":
-            agg_add(st["ops"], "release")
+        if op["op"] in ("release", "edit"):
+            agg_add(st["ops"], op["op"])
             out = capture(self._exec, world, op)
             return out.digest(), None
         agg_add(st["ops"], op["op"] + ":" + op["via"])
@@ -595,6 +602,7 @@ class Gen(object):
         self.emitted = 0
         self.files = ["f%d" % i for i in range(config["n_files"])]
         self.last_faulted = None
+        self.pending = None    # an operation to be issued right after the current one
         self.pool = {}         # file -> the save records of the long-lived signal objects that go to it
         self.saved = {}        # file -> the last few save records issued for it (a caller may save the same record again)
 
@@ -681,6 +689,9 @@ class Gen(object):
             if step == 0:
                 self._plan_big()
             return self.queue.pop(0) if self.queue else None
+        if self.pending is not None:
+            op, self.pending = self.pending, None
+            return op
         if not self.cfg.get("sweep") and world.kept and rng.random() < 0.3:
             return {"op": "release"}
         if not self.cfg.get("sweep") and self.emitted >= self.cfg["length"] and world.kept:
@@ -735,6 +746,12 @@ class Gen(object):
                             pool.append(dict(op))
                     op = dict(rng.choice(pool))
                     op.pop("fault", None)
+                    if op["obj"] in world.sigs and rng.random() < 0.4:
+                        # the object is edited in place first, then saved again
+                        self.pending = op
+                        self.saved.setdefault(f, []).append({k: v for k, v in op.items() if k != "fault"})
+                        self.saved[f] = self.saved[f][-3:]
+                        return {"op": "edit", "f": f, "via": "running_average", "obj": op["obj"]}
             self.saved.setdefault(f, []).append({k: v for k, v in op.items() if k != "fault"})
             self.saved[f] = self.saved[f][-3:]
         else:
@@ -760,8 +777,11 @@ class Gen(object):
                 # exact multiples of the block sizes people write loops around (powers of two, round decimal numbers)
                 base = rng.choice([500, 1000, 1024, 2000, 2048, 2500, 3000, 4000, 4096, 5000, 6000, 8000, 8192, 10000, 12000,
                                    15000, 16384, 20000, 25000, 30000, 32768, 50000,
-                                   6553, 13107, 26214, 52428, 21845, 43690])      # ... and a tenth / a third of a power of two
+                                   6553, 13107, 26214, 52428, 21845, 43690, 65536, 65536])      # ... and a tenth / a third of a power of two
                 n = min(base * rng.choice([1, 1, 2, 3]), 100000)
+                if rng.random() < 0.4:
+                    # ... and one sample more or less than a whole number of blocks (c16w-1: the last, single sample is dropped)
+                    n = max(1, min(base, 65536) * rng.choice([1, 1, 2]) + rng.choice([-1, 1, 1]))
             if rng.random() < 0.012:
                 n = rng.randint(100001, 104000)      # beyond the next power of ten as well (costs about a second per round trip)
             if self.cfg.get("tier") == "thorough" and rng.random() < 0.004:
